@@ -27,7 +27,7 @@ func (check) Cases(tier string) int {
 }
 
 func (check) Rule() string {
-	return "a source config (root, child or grand-child handle; half of them with ${...} references to their own root) is merged into a destination (empty or a mutation of the source tree) directly, or embedded in a map, a nested map, a slice (twice), a struct field of type *Config or Config, under one of 5 policies; the non-evaluating fingerprint of the source's whole root tree (node addresses, stored field names, parent links, values, unresolved expressions) and its public reads (Path, Parent, Unpack with its own references) are compared before/after; node address sets of source and destination must be disjoint; then a history of 1-12 Set*/Remove/Merge operations is applied to one side while the other side's fingerprint and unpack must stay constant. Non-trivial = source has >= 3 nodes and the history performed >= 1 successful mutation; distinct = distinct (source, placement, policy, history)."
+	return "a source config (root, child or grand-child handle; half of them with ${...} references to their own root, a third with references to whole objects/lists of their own tree; half of them with a prior history of Remove/Set/drain-a-container/grow-and-shrink operations, so that emptied objects and lists, detached spellings and re-set values occur) is merged into a destination (empty or a mutation of the source tree, half of these with references to their own objects at keys the source also defines, a third with a prior history) directly, or embedded in a map, a nested map, a slice (twice), a struct field of type *Config or Config, under one of 5 policies; the non-evaluating fingerprint of the source's whole root tree (node addresses, stored field names, parent links, values, unresolved expressions) and its public reads (Path, Parent, Unpack with its own references) are compared before/after; node address sets of source and destination must be disjoint; then (2 of 3 cases) every container of one or both sides receives a probe write (new key / appended element) and then a history of 1-12 Set*/Remove/Merge/SetChild operations (addresses from a fixed pool and from the trees as they are now; up to 2 of the merges take the OTHER side, directly or embedded, as their source) is applied to one side while the other side's fingerprint and unpack must stay constant and the address sets stay disjoint after every step. Non-trivial = source has >= 3 nodes and the history performed >= 1 successful mutation; distinct = distinct (source, placement, policy, history)."
 }
 
 func (check) Assumptions() []string {
@@ -42,7 +42,16 @@ var rdOpts = []ucfg.Option{ucfg.PathSep("."), ucfg.VarExp}
 
 var treeOpts = gen.TreeOpts{Prims: []interface{}{"s", "t", int64(-3), uint64(7), true, 2.5, "x y"}}
 
-func fingerprint(c *ucfg.Config) (string, map[uintptr]string) {
+// fp is the non-evaluating picture of a tree: text (compared before/after),
+// the addresses of its config nodes, fields tables and value cells, and the
+// nodes in walk order.
+type fp struct {
+	text  string
+	addrs map[uintptr]string
+	walk  []ucfg.VerifNode
+}
+
+func fingerprintOf(c *ucfg.Config) fp {
 	walk := ucfg.VerifWalk(c)
 	var b strings.Builder
 	addrs := map[uintptr]string{}
@@ -55,7 +64,238 @@ func fingerprint(c *ucfg.Config) (string, map[uintptr]string) {
 			addrs[n.Fields] = n.Walk + "(fields)"
 		}
 	}
-	return b.String(), addrs
+	return fp{b.String(), addrs, walk}
+}
+
+// gained classifies a difference between two pictures of the same tree: the
+// first node that differs is a container that had no entries and has some now.
+func gained(before, after fp) string {
+	for i, n := range before.walk {
+		if i >= len(after.walk) {
+			return ""
+		}
+		m := after.walk[i]
+		if n == m {
+			continue
+		}
+		if n.Kind == "sub" && n.NDict+n.NArr == 0 && m.Kind == "sub" && m.Addr == n.Addr && m.Walk == n.Walk && m.NDict+m.NArr > 0 {
+			return ":empty-container-gained-entries"
+		}
+		return ""
+	}
+	return ""
+}
+
+// aliased returns the first node (in walk order of the destination) that is
+// the same object as a node of the source.
+func aliased(dst, src fp) (dstWalk, srcWalk string, addr uintptr, found bool) {
+	for _, n := range dst.walk {
+		if n.Addr != 0 {
+			if sw, ok := src.addrs[n.Addr]; ok {
+				return n.Walk, sw, n.Addr, true
+			}
+		}
+		if n.Fields != 0 {
+			if sw, ok := src.addrs[n.Fields]; ok {
+				return n.Walk + "(fields)", sw, n.Fields, true
+			}
+		}
+	}
+	return "", "", 0, false
+}
+
+func join(p, k string) string {
+	if p == "" {
+		return k
+	}
+	return p + "." + k
+}
+
+func parentOf(p string) string {
+	if i := strings.LastIndex(p, "."); i >= 0 {
+		return p[:i]
+	}
+	return ""
+}
+
+// newEntry names a setting that does not exist yet inside container n.
+func newEntry(n ucfg.VerifNode, key string) string {
+	if n.NArr > 0 || (n.HasArr && n.NDict == 0) {
+		return join(n.Walk, fmt.Sprint(n.NArr))
+	}
+	return join(n.Walk, key)
+}
+
+func emptyContainer(walk []ucfg.VerifNode, p string) bool {
+	for _, n := range walk {
+		if n.Walk == p {
+			return n.Kind == "sub" && n.NDict == 0 && n.NArr == 0
+		}
+	}
+	return false
+}
+
+func subs(walk []ucfg.VerifNode) []ucfg.VerifNode {
+	var out []ucfg.VerifNode
+	for _, n := range walk {
+		if n.Kind == "sub" {
+			out = append(out, n)
+		}
+	}
+	return out
+}
+
+var sepOpt = ucfg.PathSep(".")
+
+// prehistory applies 1-3 operations to c before it takes part in the merge:
+// the states a long-lived config is in (emptied containers, re-set values,
+// settings that came and went) are not reachable by NewFrom alone.
+func prehistory(r *rand.Rand, c *ucfg.Config, protect map[string]bool, who string, log *[]string) (ops int, drained []string) {
+	k := 1 + r.Intn(3)
+	for i := 0; i < k; i++ {
+		walk := ucfg.VerifWalk(c)
+		var nodes, conts, full []ucfg.VerifNode
+		for _, n := range walk[1:] {
+			if protect[n.Walk] {
+				continue
+			}
+			nodes = append(nodes, n)
+			if n.Kind == "sub" {
+				conts = append(conts, n)
+				if n.NDict+n.NArr > 0 {
+					full = append(full, n)
+				}
+			}
+		}
+		conts = append(conts, walk[0])
+		var err error
+		var what string
+		switch op := r.Intn(7); {
+		case op == 0 && len(nodes) > 0:
+			n := nodes[r.Intn(len(nodes))]
+			_, err = c.Remove(n.Walk, -1, sepOpt)
+			what = fmt.Sprintf("Remove(%q)", n.Walk)
+		case op <= 2 && len(full) > 0:
+			// drain: every entry of one container is removed, the container stays
+			n := full[r.Intn(len(full))]
+			var kids []string
+			for _, m := range walk {
+				if m.Walk != n.Walk && parentOf(m.Walk) == n.Walk && strings.HasPrefix(m.Walk, join(n.Walk, "")) {
+					kids = append(kids, m.Walk)
+				}
+			}
+			for j := len(kids) - 1; j >= 0 && err == nil; j-- {
+				if protect[kids[j]] {
+					continue
+				}
+				_, err = c.Remove(kids[j], -1, sepOpt)
+			}
+			what = fmt.Sprintf("drain(%q)", n.Walk)
+			if err == nil {
+				drained = append(drained, n.Walk)
+			}
+		case op == 3 && len(nodes) > 0:
+			n := nodes[r.Intn(len(nodes))]
+			err = c.SetString(n.Walk, -1, fmt.Sprintf("p%d", i), sepOpt)
+			what = fmt.Sprintf("SetString(%q)", n.Walk)
+		case op == 4:
+			n := conts[r.Intn(len(conts))]
+			name := newEntry(n, "nk")
+			err = c.SetInt(name, -1, int64(40+i), sepOpt)
+			what = fmt.Sprintf("SetInt(%q)", name)
+		case op == 5:
+			// a setting that came and went
+			n := conts[r.Intn(len(conts))]
+			name := newEntry(n, "tmp")
+			if err = c.SetBool(name, -1, true, sepOpt); err == nil {
+				_, err = c.Remove(name, -1, sepOpt)
+			}
+			what = fmt.Sprintf("Set+Remove(%q)", name)
+			if err == nil && n.NDict+n.NArr == 0 {
+				drained = append(drained, n.Walk)
+			}
+		default:
+			n := conts[r.Intn(len(conts))]
+			name := newEntry(n, "sc")
+			sub := ucfg.New()
+			sub.SetString("k", -1, "v")
+			err = c.SetChild(name, -1, sub, sepOpt)
+			what = fmt.Sprintf("SetChild(%q)", name)
+		}
+		if err == nil {
+			ops++
+		}
+		*log = append(*log, fmt.Sprintf("pre:%s.%s err=%v", who, what, err != nil))
+	}
+	return ops, drained
+}
+
+var plainRefs = []string{"${x}", "p-${x}", "${y.z}", "${x}${y.z}", "${missing:dflt}"}
+
+// hasObjRef: the subtree contains a reference other than the plain ones.
+func hasObjRef(n *model.Node) bool {
+	if n == nil {
+		return false
+	}
+	if s, ok := n.Prim.(string); ok && n.Kind == model.KPrim && strings.Contains(s, "${") {
+		for _, p := range plainRefs {
+			if s == p {
+				return false
+			}
+		}
+		return true
+	}
+	for _, v := range n.D {
+		if hasObjRef(v) {
+			return true
+		}
+	}
+	for _, v := range n.A {
+		if hasObjRef(v) {
+			return true
+		}
+	}
+	return false
+}
+
+// withObjRefs replaces some settings of the top-level dictionary n (located
+// at prefix in its tree) by references to whole objects/lists next to them.
+// The referenced containers hold no such reference themselves (no cycles).
+func withObjRefs(r *rand.Rand, n *model.Node, prefix string) int {
+	keys := n.SortedKeys()
+	target := map[string]bool{}
+	var targets []string
+	for _, k := range keys {
+		if v := n.D[k]; v.IsSub() && !hasObjRef(v) && (k == "y" || r.Intn(2) == 0) {
+			target[k] = true
+			targets = append(targets, k)
+		}
+	}
+	if len(targets) == 0 {
+		return 0
+	}
+	ref := func() *model.Node { return model.P("${" + prefix + targets[r.Intn(len(targets))] + "}") }
+	cnt := 0
+	for _, k := range keys {
+		if target[k] || k == "x" {
+			continue
+		}
+		v := n.D[k]
+		if r.Intn(2) == 0 {
+			n.D[k] = ref()
+			cnt++
+			continue
+		}
+		if v.IsSub() {
+			for _, kk := range v.SortedKeys() {
+				if r.Intn(4) == 0 {
+					v.D[kk] = ref()
+					cnt++
+				}
+			}
+		}
+	}
+	return cnt
 }
 
 func root(c *ucfg.Config) *ucfg.Config {
@@ -141,41 +381,56 @@ func (check) Run(seed int64, tier string, idx int, verbose bool) harness.Result 
 		// reached twice in one evaluation: that is C08/C09 territory)
 		st.Set("x", model.P("vx"))
 		st.Set("y", model.Dict().Set("z", model.P("vz")))
+		if r.Intn(3) == 0 {
+			// settings that are references to whole objects/lists of the same tree
+			res.Ev("source_object_references", int64(withObjRefs(r, st, "")))
+		}
 		srcRoot, err := ucfg.NewFrom(st.ToGo(), rdOpts...)
 		res.Eval(1)
 		if err != nil {
 			fail("newfrom-error", "NewFrom(%s): %v", st, err)
 			return
 		}
-		src, srcTree, srcKind := srcRoot, st, "root"
+		log = append(log, fmt.Sprintf("srcRoot=%s (refs=%v)", st, refs))
+		var srcDrained []string
+		if r.Intn(2) == 0 {
+			var n int
+			n, srcDrained = prehistory(r, srcRoot, map[string]bool{"x": true, "y": true, "y.z": true}, "srcRoot", &log)
+			res.Ev("source_prehistory_ops", int64(n))
+			res.Eval(n)
+		}
+		// the handle that is merged: the root, a child or a grand-child (as
+		// the tree is now: emptied containers are handles like any other)
+		src, srcKind, srcPath := srcRoot, "root", ""
 		for depth := 0; depth < 2 && r.Intn(2) == 0; depth++ {
-			var cand []string
-			for _, k := range srcTree.SortedKeys() {
-				if v := srcTree.D[k]; v.IsSub() && (len(v.D) > 0 || len(v.A) > 0) {
-					cand = append(cand, k)
+			var cand []ucfg.VerifNode
+			for _, n := range ucfg.VerifWalk(src)[1:] {
+				if n.Kind == "sub" && !strings.Contains(n.Walk, ".") && (n.NDict+n.NArr > 0 || r.Intn(3) == 0) {
+					cand = append(cand, n)
 				}
 			}
 			if len(cand) == 0 {
 				break
 			}
 			k := cand[r.Intn(len(cand))]
-			ch, err := src.Child(k, -1)
+			ch, err := src.Child(k.Walk, -1)
 			if err != nil {
 				break
 			}
-			src, srcTree = ch, srcTree.D[k]
+			src, srcPath = ch, join(srcPath, k.Walk)
 			srcKind = []string{"child", "grandchild"}[depth]
-			if len(srcTree.A) > 0 {
+			if k.NArr > 0 {
 				srcKind += "-list"
 				break
 			}
 		}
-		log = append(log, fmt.Sprintf("src=%s of %s (refs=%v)", srcKind, st, refs))
+		srcIsList := ucfg.VerifWalk(src)[0].NArr > 0
+		log = append(log, fmt.Sprintf("src=%s %q", srcKind, srcPath))
 		res.SetAdd("source_kind", srcKind)
 
 		// --- destination ---
 		var dst *ucfg.Config
-		if len(srcTree.A) > 0 && r.Intn(2) == 0 {
+		if srcIsList && r.Intn(2) == 0 {
 			// a list source meets a list destination (top-level lists are merged in place)
 			dl := model.List(model.P("d0"), model.Dict().Set("a", model.P("d1")))
 			dst, err = ucfg.NewFrom(dl.ToGo(), rdOpts...)
@@ -192,7 +447,17 @@ func (check) Run(seed int64, tier string, idx int, verbose bool) harness.Result 
 			for !dt.IsSub() || dt.HasA {
 				dt = gen.TopDict(r, treeOpts, 3)
 			}
-			if r.Intn(2) == 0 {
+			wrap := r.Intn(2) == 0
+			if r.Intn(3) > 0 {
+				// the destination refers to objects/lists of its own at keys
+				// the source may define as well
+				pre := ""
+				if wrap {
+					pre = "emb."
+				}
+				res.Ev("destination_object_references", int64(withObjRefs(r, dt, pre)))
+			}
+			if wrap {
 				dt = model.Dict().Set("emb", dt)
 			}
 			dst, err = ucfg.NewFrom(dt.ToGo(), rdOpts...)
@@ -201,23 +466,29 @@ func (check) Run(seed int64, tier string, idx int, verbose bool) harness.Result 
 				return
 			}
 			log = append(log, fmt.Sprintf("dst=%s", dt))
+			if r.Intn(3) == 0 {
+				n, _ := prehistory(r, dst, nil, "dst", &log)
+				res.Ev("destination_prehistory_ops", int64(n))
+				res.Eval(n)
+			}
 		}
 
 		// --- placement ---
 		var from interface{}
 		placement := []string{"direct", "map", "nested-map", "slice-twice", "struct-ptr", "struct-value", "map-twice", "map-second-spelling", "struct-second-spelling"}[r.Intn(9)]
-		if len(srcTree.A) > 0 && r.Intn(2) == 0 {
+		if (srcIsList && r.Intn(2) == 0) || r.Intn(5) == 0 {
 			placement = "direct"
 		}
+		prefix := "emb"
 		switch placement {
 		case "direct":
-			from = src
+			from, prefix = src, ""
 		case "map":
 			from = map[string]interface{}{"emb": src}
 		case "nested-map":
-			from = map[string]interface{}{"m": map[string]interface{}{"emb": src}, "o": 1}
+			from, prefix = map[string]interface{}{"m": map[string]interface{}{"emb": src}, "o": 1}, "m.emb"
 		case "slice-twice":
-			from = map[string]interface{}{"l": []interface{}{src, "mid", src}}
+			from, prefix = map[string]interface{}{"l": []interface{}{src, "mid", src}}, "l.0"
 		case "struct-ptr":
 			from = embC{src}
 		case "struct-value":
@@ -245,8 +516,41 @@ func (check) Run(seed int64, tier string, idx int, verbose bool) harness.Result 
 		res.SetAdd("policy", pol.n)
 
 		// --- before / merge / after ---
-		fpBefore, _ := fingerprint(srcRoot)
+		fBefore := fingerprintOf(srcRoot)
+		fpBefore := fBefore.text
 		rdBefore := readAll(src)
+		dstBefore := fingerprintOf(dst)
+		{
+			// monitors: which of the states the merge meets
+			srcW := ucfg.VerifWalk(src)
+			kindAt := map[string]string{}
+			for _, n := range dstBefore.walk {
+				kindAt[n.Walk] = n.Kind
+			}
+			emptied := 0
+			for _, n := range srcW {
+				if n.Kind == "sub" && n.NDict+n.NArr == 0 {
+					for _, d := range srcDrained {
+						if d == join(srcPath, n.Walk) {
+							emptied++
+							break
+						}
+					}
+				}
+				if n.Walk == "" {
+					continue
+				}
+				switch dk := kindAt[join(prefix, n.Walk)]; {
+				case dk == "dyn" && n.Kind == "sub":
+					res.Ev("destination_reference_meets_source_container", 1)
+				case dk == "sub" && n.Kind == "dyn":
+					res.Ev("source_reference_meets_destination_container", 1)
+				}
+			}
+			if emptied > 0 {
+				res.Ev("cases_source_holds_emptied_container_at_merge", 1)
+			}
+		}
 		err = dst.Merge(from, mo...)
 		res.Eval(1)
 		log = append(log, fmt.Sprintf("dst.Merge(%s, %s)", placement, pol.n))
@@ -254,7 +558,8 @@ func (check) Run(seed int64, tier string, idx int, verbose bool) harness.Result 
 			fail("merge-error", "Merge returned %v", err)
 			return
 		}
-		fpAfter, srcAddrs := fingerprint(srcRoot)
+		fAfter := fingerprintOf(srcRoot)
+		fpAfter := fAfter.text
 		rdAfter := readAll(src)
 		res.Eval(2)
 		res.Ev("source_nodes_fingerprinted", int64(strings.Count(fpAfter, "\n")))
@@ -262,6 +567,8 @@ func (check) Run(seed int64, tier string, idx int, verbose bool) harness.Result 
 			sig := "source-modified-by-merge"
 			if embedded && srcKind == "root" && rdAfter.path != "" && sameExceptRootContext(fpBefore, fpAfter) {
 				sig = "embedded-root-source-reparented"
+			} else {
+				sig += gained(fBefore, fAfter)
 			}
 			fail(sig, "fingerprint of the source changed: first differing line before=%q after=%q", firstDiff(fpBefore, fpAfter), firstDiff(fpAfter, fpBefore))
 			return
@@ -270,78 +577,182 @@ func (check) Run(seed int64, tier string, idx int, verbose bool) harness.Result 
 			fail("source-reads-changed", "public reads of the source changed: before %+v after %+v", rdBefore, rdAfter)
 			return
 		}
-		_, dstAddrs := fingerprint(dst)
-		for a, w := range dstAddrs {
-			if sw, ok := srcAddrs[a]; ok {
-				fail("aliasing", "destination node %q and source node %q are the same object (%#x)", w, sw, a)
-				return
+		// disjoint reports (and classifies) a node shared by both sides
+		disjoint := func(when string) bool {
+			fd, fs := fingerprintOf(dst), fingerprintOf(srcRoot)
+			dw, sw, a, found := aliased(fd, fs)
+			if !found {
+				return true
 			}
+			sig := "aliasing"
+			// a copy sits where the merge put it: below the same relative
+			// path as in the source handle. A shared node found elsewhere in
+			// the destination got there through something else (a reference
+			// of the destination that the merge followed).
+			rel := strings.TrimSuffix(sw, "(fields)")
+			if srcPath != "" {
+				rel = strings.TrimPrefix(strings.TrimPrefix(rel, srcPath), ".")
+			}
+			if !embedded && !strings.HasSuffix(strings.TrimSuffix(dw, "(fields)"), rel) {
+				sig = "aliasing:shared-node-at-another-path-than-in-source"
+			}
+			if when != "" {
+				sig += ":" + when
+			}
+			fail(sig, "destination node %q and source node %q are the same object (%#x)", dw, sw, a)
+			return false
+		}
+		if !disjoint("") {
+			return
 		}
 		res.Ev("address_sets_compared", 1)
 
-		// --- history: mutate one side, the other must not move ---
+		// unpackOf: evaluated contents (own references included)
+		unpackOf := func(c *ucfg.Config) string {
+			var m map[string]interface{}
+			e := c.Unpack(&m, rdOpts...)
+			if e != nil {
+				m = nil
+			}
+			return fmt.Sprintf("%s|%v", model.CanonIfc(m), e != nil)
+		}
+		// step runs one operation on one side; the other side must not move.
+		// target is the address written to ("" if the operation has none).
+		step := func(sname, what, target string, sideC, other *ucfg.Config, sig string, op func() error) (ok, cont bool) {
+			fpO := fingerprintOf(other)
+			rdO := unpackOf(other)
+			intoEmpty := target != "" && emptyContainer(ucfg.VerifWalk(sideC), parentOf(target))
+			err := op()
+			res.Eval(1)
+			log = append(log, fmt.Sprintf("%s.%s(%q)", sname, what, target))
+			if intoEmpty && err == nil {
+				res.Ev("writes_into_empty_containers", 1)
+			}
+			fpO2 := fingerprintOf(other)
+			if fpO.text != fpO2.text {
+				fail(sig+gained(fpO, fpO2), "after %s on %s the other side's fingerprint changed: %q vs %q", what, sname, firstDiff(fpO.text, fpO2.text), firstDiff(fpO2.text, fpO.text))
+				return err == nil, false
+			}
+			if rd2 := unpackOf(other); rd2 != rdO {
+				fail(sig, "after %s on %s the other side unpacks differently: %s vs %s", what, sname, rdO, rd2)
+				return err == nil, false
+			}
+			return err == nil, true
+		}
+		const visible = "later-write-visible-through-other-side"
+
+		// --- probe writes: a new entry in every container of a side ---
 		muts := 0
-		n := 1 + r.Intn(12)
-		for i := 0; i < n; i++ {
-			side, other, sname := dst, srcRoot, "dst"
-			if r.Intn(2) == 0 {
-				side, other, sname = src, dst, "src"
+		if r.Intn(3) > 0 {
+			type sd struct {
+				c, other *ucfg.Config
+				name     string
 			}
-			fpO, _ := fingerprint(other)
-			var rdO string
-			{
-				var m map[string]interface{}
-				e := other.Unpack(&m, rdOpts...)
-				if e != nil {
-					m = nil
+			sides := []sd{{dst, srcRoot, "dst"}, {src, dst, "src"}}
+			switch r.Intn(3) {
+			case 0:
+				sides = sides[:1]
+			case 1:
+				sides = sides[1:]
+			}
+			for _, s := range sides {
+				for _, n := range subs(ucfg.VerifWalk(s.c)) {
+					name := newEntry(n, "zq")
+					ok, cont := step(s.name, "probe:SetString", name, s.c, s.other, visible, func() error {
+						return s.c.SetString(name, -1, "probe", sepOpt)
+					})
+					if !cont {
+						return
+					}
+					if ok {
+						muts++
+						res.Ev("probe_writes", 1)
+						if r.Intn(2) == 0 {
+							if _, cont = step(s.name, "probe:Remove", name, s.c, s.other, visible, func() error {
+								_, e := s.c.Remove(name, -1, sepOpt)
+								return e
+							}); !cont {
+								return
+							}
+						}
+					}
 				}
-				rdO = fmt.Sprintf("%s|%v", model.CanonIfc(m), e != nil)
 			}
+			if !disjoint("after-later-operation") {
+				return
+			}
+		}
+
+		// --- history: mutate one side, the other must not move ---
+		n := 1 + r.Intn(12)
+		crossMerges := 0
+		for i := 0; i < n; i++ {
+			side, other, otherHandle, sname := dst, srcRoot, src, "dst"
+			if r.Intn(2) == 0 {
+				side, other, otherHandle, sname = src, dst, dst, "src"
+			}
+			// the address: from the fixed pool, or taken from the tree as it is now
 			names := []string{"a", "b", "c", "a.b", "a.a", "emb", "emb.a", "emb.a.b", "emb2.b", "m.emb.a", "l.0.a", "l.2.b", "x", "y.z", "b.0", "0", "1.a", "2", "0.b"}
 			name := names[r.Intn(len(names))]
-			var err error
-			var what string
-			switch r.Intn(5) {
-			case 0:
-				err = side.SetString(name, -1, fmt.Sprintf("w%d", i), ucfg.PathSep("."))
-				what = "SetString"
-			case 1:
-				err = side.SetInt(name, r.Intn(3)-1, int64(i), ucfg.PathSep("."))
-				what = "SetInt"
-			case 2:
-				_, err = side.Remove(name, -1, ucfg.PathSep("."))
-				what = "Remove"
-			case 3:
+			nameKind := "pool"
+			if w := ucfg.VerifWalk(side); r.Intn(2) == 0 {
+				if r.Intn(2) == 0 && len(w) > 1 {
+					name, nameKind = w[1+r.Intn(len(w)-1)].Walk, "existing-setting"
+				} else {
+					ss := subs(w)
+					name, nameKind = newEntry(ss[r.Intn(len(ss))], []string{"a", "b", "nk"}[r.Intn(3)]), "new-entry-in-existing-container"
+				}
+			}
+			res.SetAdd("history_address_kind", nameKind)
+			var ok, cont bool
+			switch op := r.Intn(6); {
+			case op == 0:
+				ok, cont = step(sname, "SetString", name, side, other, visible, func() error {
+					return side.SetString(name, -1, fmt.Sprintf("w%d", i), sepOpt)
+				})
+			case op == 1:
+				ix := r.Intn(3) - 1
+				ok, cont = step(sname, fmt.Sprintf("SetInt[%d]", ix), name, side, other, visible, func() error {
+					return side.SetInt(name, ix, int64(i), sepOpt)
+				})
+			case op == 2:
+				ok, cont = step(sname, "Remove", name, side, other, visible, func() error {
+					_, e := side.Remove(name, -1, sepOpt)
+					return e
+				})
+			case op == 3:
 				t := gen.TopDict(r, treeOpts, 2)
 				if r.Intn(2) == 0 {
 					t = model.Dict().Set("emb", t)
 				}
-				err = side.Merge(t.ToGo(), mo...)
-				what = "Merge"
+				ok, cont = step(sname, "Merge", "", side, other, visible, func() error { return side.Merge(t.ToGo(), mo...) })
+			case op == 4 && crossMerges < 2:
+				// a later merge in which the other side is the source (again)
+				crossMerges++
+				var f interface{} = otherHandle
+				how := "Merge(other side)"
+				if r.Intn(2) == 0 {
+					f, how = map[string]interface{}{"emb": otherHandle}, "Merge({emb: other side})"
+				}
+				ok, cont = step(sname, how, "", side, other, "source-modified-by-later-merge", func() error { return side.Merge(f, mo...) })
+				if ok {
+					res.Ev("later_merges_from_other_side", 1)
+				}
 			default:
 				sub := ucfg.New()
 				sub.SetString("k", -1, "v")
-				err = side.SetChild(name, -1, sub, ucfg.PathSep("."))
-				what = "SetChild"
+				ok, cont = step(sname, "SetChild", name, side, other, visible, func() error {
+					return side.SetChild(name, -1, sub, sepOpt)
+				})
 			}
-			res.Eval(1)
-			log = append(log, fmt.Sprintf("%s.%s(%q)", sname, what, name))
-			if err == nil {
+			if !cont {
+				return
+			}
+			if ok {
 				muts++
-			}
-			fpO2, _ := fingerprint(other)
-			if fpO != fpO2 {
-				fail("later-write-visible-through-other-side", "after %s on %s the other side's fingerprint changed: %q vs %q", what, sname, firstDiff(fpO, fpO2), firstDiff(fpO2, fpO))
-				return
-			}
-			var m map[string]interface{}
-			e := other.Unpack(&m, rdOpts...)
-			if e != nil {
-				m = nil
-			}
-			if rd2 := fmt.Sprintf("%s|%v", model.CanonIfc(m), e != nil); rd2 != rdO {
-				fail("later-write-visible-through-other-side", "after %s on %s the other side unpacks differently: %s vs %s", what, sname, rdO, rd2)
-				return
+				if !disjoint("after-later-operation") {
+					return
+				}
 			}
 		}
 		res.Ev("history_mutations", int64(muts))
